@@ -9,7 +9,7 @@ use libhaystack::units::{get_unit, Unit};
 use libhaystack::val::{Number, Value};
 use serde_json::{json, Value as J};
 
-const MAGS: &[f64] = &[0.0, 1.0, -1.0, 0.5, -2.5e-3, 1e-7, 123456789.125, 1e21, 5e-324];
+const MAGS: &[f64] = &[0.0, -0.0, 1.0, -1.0, 5.0, 0.5, -2.5e-3, 1e-7, 123456789.125, 1e15, 1.2345678901234568e17, 1e21, 5e-324, 0.30000000000000004, 100.0, 1.7976931348623157e308];
 
 fn lib_matches_ref(u: &Unit, r: &RefUnit) -> Result<(), String> {
     if u.ids != r.ids {
@@ -40,6 +40,47 @@ fn number_roundtrips(x: f64, unit: &'static Unit) -> Verdict {
     let back: Value = serde_json::from_str(&j).map_err(|e| ("hayson-decode".to_string(), format!("{e}; text={j}")))?;
     if !ok(&back) {
         return Err(("hayson-roundtrip".into(), format!("{j} decodes to {back:?}")));
+    }
+    // the other serde entry points (to_value sorts the members: _kind, unit, val), and the typed Number
+    let tree = serde_json::to_value(&v).map_err(|e| ("hayson-encode".to_string(), e.to_string()))?;
+    let back: Value = serde_json::from_value(tree.clone()).map_err(|e| ("hayson-decode:from_value".to_string(), format!("{e}; tree={tree}")))?;
+    if !ok(&back) {
+        return Err(("hayson-roundtrip:to_value-from_value".into(), format!("{tree} decodes to {back:?}")));
+    }
+    let sorted = tree.to_string();
+    let back: Value = serde_json::from_str(&sorted).map_err(|e| ("hayson-decode:sorted-members".to_string(), format!("{e}; text={sorted}")))?;
+    if !ok(&back) {
+        return Err(("hayson-roundtrip:sorted-members".into(), format!("{sorted} decodes to {back:?}")));
+    }
+    let n = Number { value: x, unit: Some(unit) };
+    let jn = serde_json::to_string(&n).map_err(|e| ("hayson-encode:typed".to_string(), e.to_string()))?;
+    for text in [jn, sorted] {
+        let bn: Number = serde_json::from_str(&text).map_err(|e| ("hayson-decode:typed".to_string(), format!("{e}; text={text}")))?;
+        if !(bn.value == x && bn.unit.map_or(false, |u| std::ptr::eq(u, unit))) {
+            return Err(("hayson-roundtrip:typed".into(), format!("{text} decodes to {bn:?}")));
+        }
+    }
+    // positions: followed by another tag in a dict, last cell of a row, grid meta, column meta, list element
+    if x.is_finite() && (x == 5.0 || x == -2.5e-3 || x == 1e21) {
+        use libhaystack::val::{Column, Dict, Grid};
+        let mut d = Dict::new();
+        d.insert("a".into(), v.clone());
+        d.insert("b".into(), Value::make_marker());
+        d.insert("c".into(), v.clone());
+        let g = Grid { meta: Some(d.clone()), columns: vec![Column { name: "a".into(), meta: Some(d.clone()) }, Column { name: "c".into(), meta: None }], rows: vec![d.clone(), d.clone()], ver: "3.0".into() };
+        let whole = Value::make_list(vec![v.clone(), Value::Dict(d.clone()), Value::Grid(g), v.clone()]);
+        let z = to_zinc_string(&whole).map_err(|e| ("zinc-encode:positions".to_string(), e.to_string()))?;
+        let back = from_str(&z).map_err(|e| ("zinc-decode:positions".to_string(), format!("{e}; text={z:?}")))?;
+        // absent and empty column meta are the same thing: compare through the re-encoded text
+        if to_zinc_string(&back).ok() != Some(z.clone()) {
+            return Err(("zinc-roundtrip:positions".into(), format!("{z:?} decodes to {back:?}")));
+        }
+        let j = serde_json::to_string(&whole).map_err(|e| ("hayson-encode:positions".to_string(), e.to_string()))?;
+        let back: Value = serde_json::from_str(&j).map_err(|e| ("hayson-decode:positions".to_string(), format!("{e}; text={j}")))?;
+        // absent and empty column meta are the same thing in Hayson: compare through Zinc text
+        if to_zinc_string(&back).ok() != Some(z.clone()) {
+            return Err(("hayson-roundtrip:positions".into(), format!("{j} decodes to {back:?}")));
+        }
     }
     Ok(())
 }
@@ -134,7 +175,7 @@ fn non_ids() -> Vec<String> {
 
 pub fn run(tier: Tier) -> i32 {
     let mut run = Run::new("C15", tier, "exploration");
-    run.rule = "all units of units.txt (parsed by the harness) x all their ids: pointer-identical lookup, table agreement, Zinc text `m id` in 6 spellings; 9 magnitudes through both codecs; every non-id string (length<=3 over the unit alphabet, every 1-edit of an id) must not be found; non-trivial = distinct id / non-id string".into();
+    run.rule = "all units of units.txt (parsed by the harness) x all their ids: pointer-identical lookup, table agreement, Zinc text `m id` in 6 spellings; 16 magnitudes through both codecs — Zinc, Hayson to_string/from_str, to_value/from_value, the member-sorted text, the typed Number — and in five positions (list element, dict value followed by another tag, grid meta, column meta, last cell of a row); every non-id string (length<=3 over the unit alphabet, every 1-edit of an id) must not be found; non-trivial = distinct id / non-id string".into();
     run.assume("unit-gen/units.txt is the unit database of record");
     crate::engine::quiet_panics();
     let d = db();
